@@ -629,6 +629,21 @@ def install(w):
         return m
     L["typing.get_type_hints"] = typing_get_type_hints
 
+    def _pure_pred(name):
+        def h(ex, args, kw, e, env):
+            return Z(ex.w.ufun(name.replace(".", "_"), ex.S.Py, z3.BoolSort())(ex.to_py(args[0])))
+        return h
+
+    def _pure_fun(name):
+        def h(ex, args, kw, e, env):
+            return Z(ex.w.ufun(name.replace(".", "_"), ex.S.Py, ex.S.Py)(ex.to_py(args[0])))
+        return h
+    # reflection helpers as uninterpreted total functions of their argument (TRUSTED models: they
+    # do not raise on the values the library hands them)
+    L["dataclasses.is_dataclass"] = _pure_pred("dataclasses.is_dataclass")
+    L["func_adl.util_types.unwrap_iterable"] = _pure_fun("func_adl.util_types.unwrap_iterable")
+    L["func_adl.util_types.is_iterable"] = _pure_pred("func_adl.util_types.is_iterable")
+
     def logging_getLogger(ex, args, kw, e, env):
         return Obj("logger", {})
     L["logging.getLogger"] = logging_getLogger
